@@ -31,6 +31,12 @@ CLASSES = {
 
 
 def value(rng, bits, cls):
+    if cls == "xmax":      # the top binades of the format (an internal rescaling of ANOTHER lane's class must not push them over)
+        return fpgen.f2b((1.0 + rng.random()) * 2.0 ** (rng.randint(100, 126) if bits == 32 else rng.randint(990, 1022)) * rng.choice((1, 1, -1)), bits)
+    if cls == "xmin":      # the smallest normal binades
+        return fpgen.f2b((1.0 + rng.random()) * 2.0 ** (rng.randint(-125, -100) if bits == 32 else rng.randint(-1021, -990)) * rng.choice((1, 1, -1)), bits)
+    if cls == "neg":       # ordinary negative values (outside the domain of log, sqrt, ...)
+        return fpgen.f2b(-(0.1 + rng.random() * 20.0), bits)
     if cls == "nan":
         return fpgen.f2b(float("nan"), bits)
     if cls == "inf":
@@ -45,10 +51,18 @@ def value(rng, bits, cls):
 
 def mixed_rows(ctx, bits, L):
     rng = ctx.rng
-    names = list(CLASSES) + ["nan", "inf", "zero", "sub"]
+    names = list(CLASSES) + ["nan", "inf", "zero", "sub", "xmax", "xmin", "neg"]
     rows = []
-    for c in names:                       # all lanes of one class except one lane of every other class (one huge lane, NaN neighbour, ...)
-        for d in rng.sample(names, ctx.q(2, 6)):
+    # EVERY ordered pair of classes: all lanes of class c except one lane of class d (one huge lane among denormals, a NaN neighbour, ...);
+    # the values come from a pool of two per class, so that the broadcast rows they are compared with are shared
+    pool = {c: [value(rng, bits, c) for _ in range(2)] for c in names}
+    for c in names:
+        for d in names:
+            if c != d:
+                k = rng.randrange(L)
+                rows.append([pool[d][rng.randrange(2)] if i == k else pool[c][(i + k) % 2] for i in range(L)])
+    for c in names:                       # the same with fresh random values of the classes
+        for d in rng.sample(names, ctx.q(1, 6)):
             k = rng.randrange(L)
             rows.append([value(rng, bits, d if i == k else c) for i in range(L)])
     for _ in range(ctx.q(6, 60)):         # fully mixed
@@ -83,13 +97,16 @@ def body(ctx):
         rows = mixed_rows(ctx, bits, L)
         for op in MATH + EXACTF:
             rr = rows if op in MATH else rows[:: 3]
+            bline = {}                       # value -> plan line of its broadcast (shared between the rows)
             for r in rr:
                 plan.append("m1 %s %s 0 %s - - -" % (op, t, vf.hexrow(vf.pack_lanes(r, nb))))
                 mid = len(plan)
                 bids = []
                 for k in range(L):
-                    plan.append("m1 %s %s 0 %s - - -" % (op, t, vf.hexrow(vf.pack_lanes([r[k]] * L, nb))))
-                    bids.append(len(plan))
+                    if r[k] not in bline:
+                        plan.append("m1 %s %s 0 %s - - -" % (op, t, vf.hexrow(vf.pack_lanes([r[k]] * L, nb))))
+                        bline[r[k]] = len(plan)
+                    bids.append(bline[r[k]])
                 rel.append((op, t, 0 if op in MATH else 1, mid, bids, nb))
     ctx.log("plan: %d lines, %d mixed rows" % (len(plan), len(rel)))
     events, plan = lanes.record(ctx, "math", plan, "c13", watchdog_ms=2000)
@@ -144,7 +161,7 @@ def body(ctx):
         lanes.validate(ctx, "T_Float.tla", ev, "c13flt", plan_lines=fp)
     return dict(exhaustive=False,
                 rule="for every elementary function (25) and 4 exact float operations, float and double, 22 architectures + scalar: rows mixing operand classes on both sides of every whole-batch "
-                     "any()/all() test (tiny/small/mid/medium/big/large/huge/negative-gamma/NaN/inf/zero/subnormal; one outlier lane, alternating, fully mixed), and for EVERY lane position the same value "
+                     "any()/all() test (tiny/small/mid/medium/big/large/huge/negative-gamma/NaN/inf/zero/subnormal/top binades/smallest normals/negative; EVERY ordered pair of classes as (companions, one outlier lane), alternating, fully mixed), and for EVERY lane position the same value "
                      "broadcast; TLC requires lane k of f(mixed) to agree with f(broadcast(x[k])) - bit for bit for exact operations, within 2B+1 ordinals and equal special class for elementary functions - "
                      "and all lanes of a broadcast to be identical; (the exact integer/float operations of C01-C08 are judged lane by lane against their scalar meaning there); "
                      "distinct_nontrivial = distinct judged events whose result differs from the operand row")
